@@ -876,6 +876,29 @@ Section SvcPost.
     pose proof (lm_min_pre _ _ _ _ P2 _ _ _ HE Heff) as Hle. cbn in Hle. lia.
   Qed.
 
+  (* clause 6: an answered registration at or above the reported minimum IS recorded (services other than gc_worker, whose
+     entry LoadMin may re-create): what the monitor signals as C15:acknowledged-registration-not-stored *)
+  Lemma acknowledged_is_recorded_pf n :
+    key_of i = KSvc n -> n <> 0 -> 0 < ttl -> r_sp r <= sp ->
+    sv_get n (svcs st') = Some (Entry (text_of i) (exp_of now ttl) sp).
+  Proof.
+    intros Hkey Hn Httl Hle.
+    destruct (svc_update_cases _ _ _ _ _ _ _ Hrun) as (st0 & st1 & mn & H0 & H1 & Hc).
+    pose proof (load_min_post _ _ _ _ (wf_step0 _ _ _ _ Hwf H0) Hnow H1) as P1.
+    destruct Hc as [(Eg & -> & ->)|(Eg & st2 & Es & Hc)].
+    - exfalso. cbn in Hle. apply andb_false_iff in Eg as [Eg|Eg]; [apply Z.ltb_ge in Eg | apply Z.leb_gt in Eg]; lia.
+    - apply save_service_spec in Es as (-> & Hinf & Hok).
+      set (E := Entry (text_of i) (exp_of now ttl) sp) in *.
+      assert (HE : sv_get n (svcs (st_save (key_of i) E st1)) = Some E) by (rewrite get_save, Hkey, Z.eqb_refl; reflexivity).
+      destruct Hc as [(Et & -> & ->)|(Et & mn' & H2 & ->)]; [exact HE|].
+      assert (Hwf2 : wf_svcs (svcs (st_save (key_of i) E st1))).
+      { apply wf_save; [apply (lm_wf _ _ _ _ P1) | exact Hsp | intros n0 Hk Ht; eapply key_text_ok; eauto]. }
+      pose proof (load_min_post _ _ _ _ Hwf2 Hnow H2) as P2.
+      rewrite (lm_keep _ _ _ _ P2 _ Hn), HE. cbn [prune1].
+      pose proof (exp_of_live now ttl Httl Hnow) as Hl. unfold E; cbn [e_exp].
+      destruct (Z.ltb_spec (exp_of now ttl) now); [lia|reflexivity].
+  Qed.
+
   (* clause 5b: a non-positive TTL removes the registration *)
   Lemma nonpositive_ttl_removed_pf n : key_of i = KSvc n -> n <> 0 -> ttl <= 0 -> sv_get n (svcs st') = None.
   Proof.
